@@ -919,6 +919,201 @@ def rule_grammar_guards(col, facts):
 
 
 # ---------------------------------------------------------------------------------------------
+def _lower_bound(e, atoms, depth=0):
+    """Greatest constant lower bound of expression e implied by the atoms of one path (0 if none)."""
+    e = strip_casts(simplify_proj(e))
+    if e[0] == "k" and isinstance(e[1], int):
+        return e[1]
+    if e[0] == "kc" and isinstance(e[2], int):
+        return e[2]
+    lb = 0
+    if depth > 3:
+        return lb
+    for a, p in atoms:
+        a = strip_casts(simplify_proj(a))
+        if a[0] != "bin" or a[1] not in ("Lt", "Le", "Gt", "Ge") or not isinstance(p, bool):
+            continue
+        x, y, op = strip_casts(a[2]), strip_casts(a[3]), a[1]
+        if not p:
+            op = {"Lt": "Ge", "Ge": "Lt", "Gt": "Le", "Le": "Gt"}[op]
+        # now `x op y` holds
+        if x == e and op in ("Gt", "Ge"):
+            other = _lower_bound(y, atoms, depth + 1) if y != e else 0
+            lb = max(lb, other + (1 if op == "Gt" else 0))
+        if y == e and op in ("Lt", "Le"):
+            other = _lower_bound(x, atoms, depth + 1) if x != e else 0
+            lb = max(lb, other + (1 if op == "Lt" else 0))
+    return lb
+
+
+def rule_digit_window_allowance(col, facts):
+    """TBL-size (digit window): the decimal writers emit *all* shortest digits with the u64 integer writer -
+    which re-slices a 20-byte window - at the position where they start, and only then truncate them to
+    max_significant_digits.  So the significant-digit term of buffer_size_const must be >= that window on
+    every path, whatever max_significant_digits says: `min(28, max)` alone sizes the buffer for `max` digits
+    and `-1.5e-300` with max = 5 and a negative break of -300 panics in a buffer of the documented size."""
+    from rules.core import enum_paths, resolve_env
+    from rules.tbl_write_integer import reslice_consts
+    if facts.config.startswith("compact"):
+        return
+    R = "TBL-size"
+    f = facts.fn(WF + "options::Options::buffer_size_const")
+    j = facts.fn("lexical_write_integer::jeaiii::from_u64_impl")
+    ks = reslice_consts(j)
+    col.check(R, "from_u64:reslice", bool(ks), "jeaiii::from_u64_impl re-slices with %s" % ks, j.loc())
+    if not ks:
+        return
+    window = max(ks)
+    counter = None
+    for l, ds in f.defs().items():
+        if any(rv[0] == "use" and rv[1][0] == "k" and rv[1][1].get("ty") == "usize" and rv[1][1].get("v") == 2 for bb, jj, rv, pr in ds) and len(ds) >= 4:
+            counter = l
+    if counter is None:
+        raise AnchorMissing("buffer_size_const: counter not found")
+    tg = None
+    addend = None
+    for bb, jj, rv, pr in f.defs()[counter]:
+        if rv[0] == "call":
+            continue
+        e = rvalue_expr(f, rv, 0)
+        if e[0] == "bin" and e[1] == "Add":
+            add = strip_casts(e[3])
+            if add[0] == "var" and len(f.defs().get(add[1], [])) >= 2:
+                tg, addend = bb, add
+    col.check(R, "buffer_size_const:digits-term(window)", tg is not None, "the `count += digits` term was not found", f.loc())
+    if tg is None:
+        return
+    worst = None
+    n = 0
+    for _t, atoms, env in enum_paths(f, 0, {tg}, want_env=True, resolve_atoms=True):
+        dec = [p for e, p in atoms if strip_casts(e)[0] == "bin" and strip_casts(e)[1] == "Eq" and strip_casts(strip_casts(e)[3]) == ("k", 10) and any(last_seg(c[1]) == "radix" for c in expr_calls(e))]
+        if dec and dec[-1] is False:
+            continue                        # non-decimal: the generic integer writer needs no fixed window
+        n += 1
+        val = env.get(addend[1])
+        e = resolve_env(val[1], env) if val and val[0] == "expr" else addend
+        lb = _lower_bound(e, atoms)
+        if worst is None or lb < worst[0]:
+            worst = (lb, show(strip_casts(simplify_proj(e))))
+    col.check(R, "buffer_size_const:digit-window", worst is not None and worst[0] >= window and n >= 1,
+              "on a decimal path the significant-digit term can be as small as %s (`%s`) but the digits are first written through a %d-byte window: with a small max_significant_digits and a large negative exponent break the documented buffer is too short" % ((worst or (0, "?"))[0], (worst or (0, "?"))[1], window), f.loc(f.blocks[tg]["ts"]))
+
+
+# ---------------------------------------------------------------------------------------------
+def rule_compare_decodes(col, facts):
+    """UNIT-char (odd-radix slow path): compare_bytes orders each input digit against the digit of the
+    halfway point generated on the fly.  Input bytes are case-insensitive digits (`a` = `A` = 10) while
+    digit_to_char_const only produces upper case, so ordering *characters* makes every lower-case letter
+    compare greater: the comparison must be between decoded digit values."""
+    if "radix" not in facts.config:
+        return
+    R = "UNIT-char"
+    f = facts.fn(PF + "slow::compare_bytes")
+    n_bad = n_ok = 0
+    for i, b in enumerate(f.blocks):
+        if not f.live(i):
+            continue
+        for st in b["s"]:
+            if st[0] == "=" and st[2][0] == "bin" and st[2][1] in ("Lt", "Gt", "Le", "Ge"):
+                e = rvalue_expr(f, st[2], 0)
+                names = [last_seg(c[1]) for c in expr_calls(e)]
+                if "digit_to_char_const" in names:
+                    n_bad += 1
+                    col.bad(R, "compare_bytes:orders-characters#%d" % n_bad,
+                            "`%s` orders an input byte against digit_to_char_const(..): lower-case letter digits (radix > 10) always compare greater than the expected upper-case digit, so near-halfway inputs written in lower case round up" % show(e)[:120], f.loc(st[3]))
+                elif "quorem" in names and "char_to_valid_digit_const" in names:
+                    n_ok += 1
+    col.floor(R, "digit comparisons in compare_bytes", n_ok + n_bad, 2)
+
+
+def rule_exponent_narrowing(col, facts, which=("bellerophon", "binary")):
+    """GRD-narrow: Number.exponent is an i64 that parse_number lets grow to about 10^10.  Every moderate-path
+    back-end narrows it to i32 (directly or through calculate_power2); that cast must be dominated by the
+    literal zero / infinity short-circuits on both sides (as in bellerophon: `<= -0x1000`, `>= 0x1000`),
+    otherwise `1p2147483648` wraps to a tiny exponent and parses as 0 instead of infinity."""
+    R = "GRD-narrow"
+    fields = facts.adts[PF + "number::Number"][0]["fields"]
+    ei = fields.index("exponent")
+    backends = []
+    if "bellerophon" in which and (facts.config.startswith("compact") or "radix" in facts.config):
+        backends.append(PF + "bellerophon::bellerophon")
+    if "binary" in which and ("power-of-two" in facts.config or "radix" in facts.config):
+        backends.append(PF + "binary::binary")
+    n = 0
+    def is_exponent(e):
+        e = strip_casts(e)
+        return e[0] == "proj" and e[2] and e[2][-1] == ei and strip_casts(e[1])[0] in ("arg", "proj")
+    for name in backends:
+        f = facts.fn(name)
+        sites = []
+        for i, b in enumerate(f.blocks):
+            if not f.live(i):
+                continue
+            for st in b["s"]:
+                if st[0] == "=" and st[2][0] == "cast" and st[2][1] == "IntToInt" and st[2][3] == "i32":
+                    e = op_expr(f, st[2][2])
+                    if is_exponent(e):
+                        sites.append((i, st[3], "as i32"))
+            t = b["t"]
+            if t["k"] == "call" and callee_name(t["f"]).endswith("shared::calculate_power2"):
+                if is_exponent(op_expr(f, t["a"][0])):
+                    sites.append((i, b["ts"], "calculate_power2 (narrows to i32)"))
+        col.check(R, last_seg(name) + ":anchor", bool(sites), "no narrowing of num.exponent found (rule needs re-reading)", f.loc())
+        for bb, sp, what in sites:
+            n += 1
+            lo = hi = False
+            for _d, e, p in path_conditions(f, bb):
+                e = strip_casts(e)
+                if e[0] == "bin" and e[1] in ("Lt", "Le", "Gt", "Ge") and isinstance(p, bool) and is_exponent(e[2]) and strip_casts(e[3])[0] == "k":
+                    op = e[1] if p else {"Lt": "Ge", "Ge": "Lt", "Gt": "Le", "Le": "Gt"}[e[1]]
+                    k = strip_casts(e[3])[1]
+                    if op in ("Gt", "Ge") and -(1 << 28) <= k:
+                        lo = True
+                    if op in ("Lt", "Le") and k <= (1 << 28):
+                        hi = True
+            col.check(R, "%s:%s" % (last_seg(name), what.split()[0]), lo and hi,
+                      "num.exponent (an i64 of up to ~10^10) is narrowed by %s without the literal zero / infinity short-circuits bounding it %s: huge exponents wrap (`1p2147483648` -> 0 instead of inf)" % (what, "on either side" if not (lo or hi) else ("from below" if not lo else "from above")), f.loc(sp))
+    if backends:
+        col.floor(R, "narrowings of num.exponent", n, 1)
+
+
+def rule_denormal_shift(col, facts, which=("lemire", "binary")):
+    """GRD-shift (denormal branch): (a) Eisel-Lemire's `mantissa >>= -power2 + 1` needs that amount < 64 - the
+    zero short-circuit just before it must be `>= 64`; (b) binary() works on a normalised 64-bit mantissa and
+    rounds with shifts up to 64, so its zero short-circuit must *not* capture a shift of exactly 64 (values
+    between half of and the smallest denormal round up to it)."""
+    R = "GRD-shift"
+    def threshold(f, zero_only=True):
+        """K such that the function returns the literal zero exactly when (-power2 + 1) >= K, read off the guard."""
+        out = []
+        for i, b in enumerate(f.blocks):
+            if not f.live(i):
+                continue
+            for st in b["s"]:
+                if st[0] == "=" and st[1] == [0, []]:
+                    e = strip_casts(op_expr(f, st[2][1])) if st[2][0] == "use" else strip_casts(rvalue_expr(f, st[2], 0))
+                    if not (e[0] == "agg" and len(e[2]) == 2 and strip_casts(e[2][0]) == ("k", 0) and strip_casts(e[2][1]) == ("k", 0)):
+                        continue
+                    conds = path_conditions(f, i)
+                    for _d, c, p in conds[-1:]:
+                        c = strip_casts(c)
+                        if c[0] == "bin" and c[1] in ("Ge", "Gt") and p is True and strip_casts(c[3])[0] == "k" and strip_casts(c[2])[0] == "bin" and strip_casts(c[2])[1] == "Add":
+                            k = strip_casts(c[3])[1]
+                            out.append((k if c[1] == "Ge" else k + 1, st[3], strip_casts(c[2])))
+        return out
+    if "lemire" in which and not facts.config.startswith("compact"):
+        f = facts.fn(PF + "lemire::compute_float")
+        th = threshold(f)
+        col.check(R, "compute_float:zero-threshold", len(th) == 1 and th[0][0] == 64,
+                  "the subnormal branch shifts a u64 right by `-power2 + 1`; the zero short-circuit before it returns for amounts >= %s, so an amount of 64 %s" % ([t[0] for t in th], "reaches the shift (debug: panic, release: the shift is masked to 0 and a normal number comes out)" if th and th[0][0] > 64 else "is not the boundary"), f.loc())
+    if "binary" in which and ("power-of-two" in facts.config or "radix" in facts.config):
+        f = facts.fn(PF + "binary::binary")
+        th = threshold(f)
+        col.check(R, "binary:zero-threshold", len(th) == 1 and th[0][0] == 65,
+                  "binary() returns the literal zero for `-power2 + 1` >= %s; with a normalised 64-bit mantissa a shift of exactly 64 is still roundable (shared::round handles it): values in (2^-1075, 2^-1074) must round up to the smallest denormal, not flush to 0" % [t[0] for t in th], f.loc())
+
+
+# ---------------------------------------------------------------------------------------------
 def rule_bigfloat_bits(col, facts):
     """TBL-limits (Bigfloat): byte_comp scales b+h by radix^|sci_exp| up to 2^1075 and multiplies by a
     64-bit significand: EXPONENT_BIAS + 64 bits at least."""
